@@ -33,6 +33,9 @@ pub struct CrashStats {
     pub dropped_writes: u64,
     pub lost_rename: u64,
     pub inflight_cuts: u64,
+    pub ms_build: u64,
+    pub ms_open: u64,
+    pub ms_compare: u64,
     pub image_hashes: Vec<String>,
 }
 
@@ -301,7 +304,9 @@ impl<'a> Eval<'a> {
     /// (crash inside create).
     pub fn eval(&mut self, seg: &Segment, cp: &CrashPoint, cands: &[Model], may_fail_open: bool, props: &[&str], ctx: &str, nested_explore: Option<(&mut Rng, usize)>) -> Vec<(Violation, CrashPoint)> {
         let mut out: Vec<(Violation, CrashPoint)> = Vec::new();
+        let t_a = shim::real_ms();
         let img = disk::build(&seg.log, &seg.base, &cp.spec);
+        self.stats.ms_build += shim::real_ms() - t_a;
         self.stats.images += 1;
         match &cp.spec {
             CrashSpec::Process { partial, .. } => {
@@ -346,7 +351,7 @@ impl<'a> Eval<'a> {
             shim::start(&dir, Default::default(), 0);
             let o = try_open(&format!("{dir}/{FILE}"));
             if let Some(m) = o.mem {
-                std::mem::forget(m);
+                drop(m);
             }
             let rec = shim::stop().unwrap();
             let next = disk::build(&rec.log, &cur_img, nspec);
@@ -362,7 +367,9 @@ impl<'a> Eval<'a> {
         if record {
             shim::start(&dir, Default::default(), 0);
         }
+        let t_b = shim::real_ms();
         let o = try_open(&path);
+        self.stats.ms_open += shim::real_ms() - t_b;
         let rec = if record { shim::stop() } else { None };
         if let Some(p) = o.panicked {
             out.push((mk("open-no-panic", "", format!("open panicked on crash image {:?}: {p}", cp)), cp.clone()));
@@ -384,7 +391,15 @@ impl<'a> Eval<'a> {
         self.stats.opens_ok += 1;
         // compare with each acceptable state
         let mut best: Option<Vec<oracle::Mis>> = None;
+        if self.lenient && !cands.is_empty() && cands[0].exists && !cands.iter().any(|c| c.unpredictable) {
+            // durability reading: what was acknowledged (cands[0]) must be there, frame by frame
+            // equal to its acknowledged version or to the version the in-flight operation makes
+            best = Some(oracle::diff_durable(&mut mem, &cands[0], cands.get(1), "power-loss"));
+        }
         for c in cands {
+            if self.lenient && best.is_some() {
+                break;
+            }
             if !c.exists {
                 continue;
             }
@@ -418,6 +433,7 @@ impl<'a> Eval<'a> {
                 ));
             }
         }
+        self.stats.ms_compare += shim::real_ms() - t_b;
         let obs = observe(&mut mem);
         // nested exploration: crash inside this recovery, the final open must give the same state
         if let (Some((r, depth)), Some(rec)) = (nested_explore, rec) {
@@ -453,7 +469,7 @@ impl<'a> Eval<'a> {
                             }
                             Some(mut m2) => {
                                 if d < depth && r.chance(1, 2) && candidate_cuts(&rec2.log).len() > 1 {
-                                    std::mem::forget(m2);
+                                    drop(m2);
                                     let s3 = sample_process(&rec2.log, r, 1, false, false);
                                     if let Some(s3) = s3.into_iter().next() {
                                         img2 = disk::build(&rec2.log, &img2, &s3);
@@ -514,7 +530,7 @@ impl<'a> Eval<'a> {
                 drop(mem);
             }
         } else {
-            std::mem::forget(mem);
+            drop(mem);
         }
         let _ = std::fs::remove_dir_all(&dir);
         out
